@@ -40,11 +40,4 @@ class U1Gate(
         self.check_env_matrix(env_matrix)
         a = np.real(env_matrix[1, 1])
         b = np.imag(env_matrix[1, 1])
-        arctan = np.arctan(b / a)
-
-        if a < 0 and b > 0:
-            arctan += np.pi
-        elif a < 0 and b < 0:
-            arctan -= np.pi
-
-        return [-arctan]
+        return [-np.arctan2(b, a)]
